@@ -14,7 +14,8 @@ CFG = {
             "genesis_read_legacy_panics", "read_language_can_panic", "canonical_total", "canonical_legacy_panics_iff",
             "no_values_iff", "commit_qc_verify_total", "timeout_qc_verify_total", "replica_timeout_verify_total",
             "justification_verify_total", "commit_qc_len_check_is_load_bearing", "implied_block_total_of_verified",
-            "implied_block_panics_at_max", "replica_vote_caches_total", "commit_qc_add_twice_fails", "view_next_wraps_release_panics_checked", "selection_with_max_view"],
+            "implied_block_panics_at_max", "replica_vote_caches_total", "commit_qc_add_twice_fails", "contains_total", "contains_spec", "next_panics_iff",
+            "verify_ok_iff", "head_spec", "contains_via_next_panics", "contains_via_next_agrees", "view_next_wraps_release_panics_checked", "selection_with_max_view"],
         "technique": "Lean 4 totality theorems over executable models with explicit panic outcomes (masks and buffer "
                      "constants regenerated from header.rs / noise/stream.rs by the translator) + differential run of every "
                      "network entry point against the models",
@@ -34,11 +35,22 @@ CFG = {
                       "any view/block numbers, get_implied_block is total after verification unless a quorum certified block "
                       "2^64-1; on_commit / on_timeout never reach their two .expect(\"could not add ...\"), the "
                       "remove(..).unwrap()s or get_justification's assert on any sequence of signed votes (inductive invariant "
-                      "over the vote caches). The repairs of F3, F4, F5, F9, F10 (Display of time::Utc) and F11 (Debug of "
+                      "over the vote caches); BlockStoreState::contains (evaluated by the block fetcher on the PEER-supplied "
+                      "announcement, gossip/fetch.rs:97) is total with the exact closed-range value for every state, verified or not, "
+                      "while next() panics iff last = 2^64-1 - so contains must not be written through next() (the half-open rewrite "
+                      "is proved to panic on the verified announcement {first 0, last 2^64-1}). Peer-supplied block numbers reach "
+                      "only comparisons: fetch.rs:97 contains; runner.rs get_block handler -> manager.rs:158 queued.contains + "
+                      "block_store.rs:23 checked_sub; runner.rs fetched block -> number equality, manager.rs:187/217 and "
+                      "block_store.rs:31 compare against the LOCAL next(); runner.rs:90 verify. Every other next()/prev()/+1 in "
+                      "network, engine, executor is applied to the node's own store / own announcement / local ids and overflows "
+                      "only if the node itself holds block or version 2^64-1 (list in Model/C10Store.lean). The repairs of F3, F4, F5, F9, F10 (Display of time::Utc) and F11 (Debug of "
                       "time::Utc) are load-bearing: the pre-repair transcriptions are proved to panic "
                       "on the concrete witnesses. NOT modelled (third party, only exercised by the correspondence run): "
                       "prost/quick_protobuf byte decoding, snow (Noise handshake and AEAD), blst / ed25519-dalek key and signature "
-                      "validation, semver, tokio; they enter the models as arbitrary oracles. NOT modelled: on_proposal / on_new_view "
+                      "validation, semver, tokio; they enter the models as arbitrary oracles. NOT modelled, only exercised end to end by the `node` family (a real "
+                      "network+engine instance with the block fetcher running, fed well-formed absurd messages of every gossip RPC and "
+                      "of the consensus RPC by a raw peer, then probed for liveness under a panic / hang / allocation monitor): the "
+                      "gossip RPC handlers, fetch queue, engine manager queueing and persistence. NOT modelled: on_proposal / on_new_view "
                       "beyond what runs before and during verification (view(), view_leader is C11, verify, get_implied_block), "
                       "block storage and persistence - extreme well-signed proposals / new-views are only fed to a real replica "
                       "under a panic monitor; memory safety and allocation failure.",
@@ -71,7 +83,15 @@ CFG = {
                 "extreme view/block numbers; N/8 sequences of signed commit/timeout votes into a fresh real replica (full rounds "
                 "that form certificates and advance / wrap the view, duplicates, non-members, bad signatures, foreign "
                 "genesis/epoch, malformed high certificates) compared verdict by verdict with the cache model; extreme "
-                "well-signed messages into a real replica. distinct = distinct op lines; "
+                "well-signed messages into a real replica; ~530 BlockStoreState::{contains,head,verify,next} evaluations on the "
+                "boundary grid {0,1,2,5,2^63,2^64-3..2^64-1}^3 with PreGenesis and FinalV2 last; ~45 `node` cases: a fresh real node "
+                "(first_block 0/1/3, with and without pre-genesis range, 2 validators) and a raw gossip peer sending "
+                "push_block_store_state for every (first, last kind, last) boundary combination incl. first > last and last = "
+                "2^64-1 while fetch requests are pending, answering the node's get_block calls with the right / no / wrong / "
+                "2^64-1-numbered / oversized / garbage / empty / no answer, get_block requests for extreme numbers, "
+                "push_validator_addrs with extreme versions, timestamps, duplicate, unknown and mis-signed entries, push_tx of "
+                "0..100 kB, ping, and signed consensus messages with extreme views over the consensus endpoint; afterwards an "
+                "honest peer must get a pong and have its announced block fetched and persisted. distinct = distinct op lines; "
                 "non-trivial = not the modal observation class",
         "trusted": ["the hand transcription of the Rust functions into Lean/Model/C10*.lean (checked only by the differential run)",
                     "the constant / mask extraction of tools/translate.py for header.rs and noise/stream.rs",
